@@ -185,6 +185,14 @@ pub fn gen_file(r: &mut Rng) -> Vec<u8> {
         }
         out.extend(w);
     }
+    if r.chance(1, 25) {
+        // a second header (only recognised at the start of a line)
+        if !at_start && r.chance(3, 4) {
+            out.push(b'\n');
+        }
+        emit_header(&mut out, false);
+        at_start = true;
+    }
     if header_last {
         if !at_start {
             out.push(b'\n');
